@@ -205,8 +205,13 @@ Matches(e, p) == \A f \in DOMAIN p : f \in DOMAIN e /\ e[f] = p[f]
 Step(e) ==
     IF cur # 0
       THEN \* a callback is in progress: the next entry is the next one it makes
-           /\ Matches(e, Head(exp))
-           /\ exp' = Tail(exp) /\ cur' = IF Len(exp) = 1 THEN 0 ELSE cur
+           \* (a change that removes several entries may run the lane's event once - as the code does, for the last entry -
+           \* or once per entry: events of the lane before the one that shows the final map are passed over)
+           /\ \/ /\ Matches(e, Head(exp))
+                 /\ exp' = Tail(exp) /\ cur' = IF Len(exp) = 1 THEN 0 ELSE cur
+              \/ /\ e.e = "jop" /\ Head(exp).e = "jop" /\ e.lane = Head(exp).lane /\ "m" \notin DOMAIN Head(exp)
+                 /\ e.m = "rem" /\ e.map # Head(exp).map
+                 /\ UNCHANGED <<exp, cur>>
            /\ UNCHANGED <<D, M, RV, RM, own, resp, stale, stopping, kf>>
       ELSE
     \/ /\ e.e = "reset" /\ Fresh({e.ids[x] : x \in 1..Len(e.ids)}) /\ UNCHANGED kf
